@@ -44,10 +44,13 @@ def ob_m_self(ob):
     T = Text(N)
     tpl = Template([Fill('pre', _ctx(), 0, K, last_not=list(WORD) + ['½', '¼']), Alt('sp', sp, cases=True),
                     Alt('stop', ['', ' ', ',', '.', ';', '\n']), Fill('post', _ctx(), 0, K)], T)
-    M = Matcher(pat, T)
+    # finditer by induction: the search is resumed at the start of the spelling (the leading context may itself hold a spelling)
+    P = z3.Int('pos')
+    M = Matcher(pat, T, pos=P)
     sol = z3.Solver()
     sol.set('timeout', ob.params.get('cap', 600) * 1000)
     sol.add(*(T.wf() + tpl.cons + M.cons))
+    sol.add(P == tpl.lo('sp'))
     # the right context the property allows: end of text or one of the stop characters
     sol.add(z3.Or(tpl.hi('stop') > tpl.lo('stop'), tpl.hi('post') == tpl.lo('post')))
     t0 = time.time()
